@@ -553,3 +553,28 @@ def _early_exits(parent, child, add):
                     break
                 if isinstance(s, ast.If) and not s.orelse and s.body and isinstance(s.body[-1], (ast.Continue, ast.Return, ast.Raise, ast.Break)):
                     add(s.test, "f")
+
+
+def defining_module(program, modname: str, symbol: str):
+    """the package module in which `symbol`, visible in `modname`, is actually bound (follows `from .x import symbol` re-exports)"""
+    seen = set()
+    m = program.module(modname)
+    while m is not None and m.name not in seen:
+        seen.add(m.name)
+        bound_here = any(
+            (isinstance(s, (ast.FunctionDef, ast.AsyncFunctionDef, ast.ClassDef)) and s.name == symbol)
+            or (isinstance(s, ast.Assign) and any(isinstance(t, ast.Name) and t.id == symbol for t in s.targets))
+            or (isinstance(s, ast.AnnAssign) and isinstance(s.target, ast.Name) and s.target.id == symbol)
+            for s in ast.walk(m.tree) if not isinstance(s, ast.expr)
+        )
+        if bound_here:
+            return m
+        tgt = program.imports_of(m).get(symbol)
+        if not tgt:
+            return m
+        m2, _, sym = tgt.rpartition(".")
+        nxt = program.modules.get(m2)
+        if nxt is None:
+            return m
+        m, symbol = nxt, sym
+    return m
